@@ -130,9 +130,10 @@ class InducingPointKernel(Kernel):
             kernel_mat = self._cached_kernel_mat
 
         cp = self.__class__(
-            base_kernel=copy.deepcopy(self.base_kernel),
-            inducing_points=copy.deepcopy(self.inducing_points),
-            likelihood=self.likelihood,
+            base_kernel=copy.deepcopy(self.base_kernel, memo),
+            inducing_points=copy.deepcopy(self.inducing_points, memo),
+            # (through the memo: within a copy of a whole model this is the model copy's own likelihood)
+            likelihood=copy.deepcopy(self.likelihood, memo),
             active_dims=self.active_dims,
         )
 
